@@ -279,6 +279,12 @@ func (h *ProposalHandler) CheckInitialSignaturesFromLastCommit(ctx sdk.Context, 
 			h.logger.Error("CheckInitialSignaturesFromLastCommit: failed to unmarshal vote extension", "error", err)
 			// check for initial sig
 		} else if len(voteExt.InitialSignature.SignatureA) > 0 {
+			// address recovery slices the first 64 bytes of each signature and panics on shorter input;
+			// VerifyVoteExtension only bounds the length from above, so shorter signatures are skipped here
+			if len(voteExt.InitialSignature.SignatureA) < 64 || len(voteExt.InitialSignature.SignatureB) < 64 {
+				h.logger.Error("CheckInitialSignaturesFromLastCommit: initial signature shorter than 64 bytes")
+				continue
+			}
 			// verify initial sig
 			evmAddress, err := h.bridgeKeeper.EVMAddressFromSignatures(ctx, voteExt.InitialSignature.SignatureA, voteExt.InitialSignature.SignatureB)
 			if err != nil {
